@@ -34,6 +34,24 @@ PREDICATES = ["_check_operands", "_check_x86_operands", "_check_AArch64_operands
 AXIOMS = []
 
 
+def _class_consts(f):
+    """`self.NAME` -> value for the named constants of the function's class (class-level NAME = <non-None literal>, never
+    assigned elsewhere in the module)."""
+    out = {}
+    cls = next((c for c in ast.walk(f.module.tree) if isinstance(c, ast.ClassDef) and f.node in ast.walk(c)), None)
+    if cls is None:
+        return out
+    for st in cls.body:
+        if isinstance(st, ast.Assign) and len(st.targets) == 1 and isinstance(st.targets[0], ast.Name) \
+                and isinstance(st.value, ast.Constant) and st.value.value is not None:
+            nm = st.targets[0].id
+            stores = [n for n in ast.walk(f.module.tree) if isinstance(n, ast.Attribute) and n.attr == nm
+                      and isinstance(n.ctx, ast.Store)]
+            if not stores:
+                out["self." + nm] = st.value.value
+    return out
+
+
 def _r1(ctx):
     ctx.rule("R1", "arity guard dominates the operand loop; all positions are conjoined")
     f = ctx.func("MachineModel._match_operands")
@@ -373,7 +391,7 @@ def _r6(ctx):
             ctx.broken("R6: no decision table for %s in spec/matcher_spec.py" % name)
         try:
             bases = {c: set(ctx.repo.mro(c)[1:]) for c in ctx.repo.classes}
-            eq, info = boolfn.compare(f.node, spec[name], AXIOMS, bases)
+            eq, info = boolfn.compare(f.node, spec[name], AXIOMS, bases, _class_consts(f))
         except boolfn.Undecidable as e:
             ctx.broken("R6: %s is no longer a pure decision function the BDD extraction understands: %s" % (name, e))
         stats[name] = {"atoms": info["atoms_code"], "bdd_nodes": info["bdd_nodes"]}
